@@ -1,0 +1,84 @@
+//! Verification hooks (feature `verif-hooks` only): a scriptable, logging replacement for
+//! `rand::thread_rng()` so that a harness can replay the exact random history of a run.
+//!
+//! Every `fill_bytes` request is served from the thread-local script if the next scripted chunk has
+//! exactly the requested length, and from a SplitMix64 stream otherwise. Every chunk served is logged.
+use rand::RngCore;
+use std::cell::RefCell;
+use std::collections::VecDeque;
+
+struct State {
+    script: VecDeque<Vec<u8>>,
+    sm: u64,
+    log: Vec<Vec<u8>>,
+}
+
+thread_local! {
+    static STATE: RefCell<State> = RefCell::new(State {
+        script: VecDeque::new(),
+        sm: 0x9e3779b97f4a7c15,
+        log: Vec::new(),
+    });
+}
+
+/// Resets the generator of the current thread: fallback seed, script of chunks, empty log.
+pub fn reset(seed: u64, script: Vec<Vec<u8>>) {
+    STATE.with(|s| {
+        let mut s = s.borrow_mut();
+        s.script = script.into();
+        s.sm = seed;
+        s.log.clear();
+    });
+}
+
+/// Takes the log of chunks served since the last `reset`/`take_log`.
+pub fn take_log() -> Vec<Vec<u8>> {
+    STATE.with(|s| std::mem::take(&mut s.borrow_mut().log))
+}
+
+pub struct VerifRng;
+
+pub fn rng() -> VerifRng {
+    VerifRng
+}
+
+fn splitmix(x: &mut u64) -> u64 {
+    *x = x.wrapping_add(0x9e3779b97f4a7c15);
+    let mut z = *x;
+    z = (z ^ (z >> 30)).wrapping_mul(0xbf58476d1ce4e5b9);
+    z = (z ^ (z >> 27)).wrapping_mul(0x94d049bb133111eb);
+    z ^ (z >> 31)
+}
+
+impl RngCore for VerifRng {
+    fn next_u32(&mut self) -> u32 {
+        let mut b = [0u8; 4];
+        self.fill_bytes(&mut b);
+        u32::from_le_bytes(b)
+    }
+    fn next_u64(&mut self) -> u64 {
+        let mut b = [0u8; 8];
+        self.fill_bytes(&mut b);
+        u64::from_le_bytes(b)
+    }
+    fn fill_bytes(&mut self, dest: &mut [u8]) {
+        STATE.with(|s| {
+            let mut s = s.borrow_mut();
+            let scripted = matches!(s.script.front(), Some(c) if c.len() == dest.len());
+            if scripted {
+                let c = s.script.pop_front().unwrap();
+                dest.copy_from_slice(&c);
+            } else {
+                for chunk in dest.chunks_mut(8) {
+                    let v = splitmix(&mut s.sm).to_le_bytes();
+                    chunk.copy_from_slice(&v[..chunk.len()]);
+                }
+            }
+            s.log.push(dest.to_vec());
+        });
+    }
+    fn try_fill_bytes(&mut self, dest: &mut [u8]) -> Result<(), rand::Error> {
+        self.fill_bytes(dest);
+        Ok(())
+    }
+}
